@@ -19,6 +19,7 @@ def value_corpus(F, tier, name):
     recs += gen.g_grid(F, rng, tier)
     recs += gen.g_exact_products(F, rng, tier)
     recs += gen.g_lo_ones(F, rng, tier)
+    recs += gen.g_tie_digit_counts(F, rng, tier)
     recs += gen.g_extremes(F, rng, big=20000 if q else 1000000)
     recs += gen.g_runs(F, rng, 80 if q else 3000)
     return gen.normalise(gen.dedup(recs))
@@ -54,7 +55,8 @@ def c01(tier):
              "G4 (seams), G5 (extremes), G6 (run-structured), G8 (exact <= 19-digit ties, both parities), G9 (low-decade "
              "midpoints), G10 (integer ties + one bit), G11 (every binade beyond the range ends), G12 (every decade, 17..19-digit "
              "truncations), G13 (carry into the next binade incl. subnormal -> normal), G14 (d x 10^q for every q), G15 (exact "
-             "64-bit products w x 5^q with forced low-bit patterns), G16 (first product's low word all ones); "
+             "64-bit products w x 5^q with forced low-bit patterns), G16 (first product's low word all ones), G17 (exact "
+             "ties for every digit count and both ends of a decade); "
              "distinct = distinct (int,frac,exp) triples; "
              "every record is adjudicated by TLC with IEEE!Judge",
         level_note="TLC evaluates the declarative rounding definition (IEEE.tla) on each (input, bits) pair observed "
@@ -513,6 +515,9 @@ def c05(tier):
         inputs += gen.g_every_decade(F, rng, 2 if q else 1, 1 if q else 4)
         inputs += gen.g_extremes(F, rng, big=20000)[:: 2 if q else 1]
         inputs += gen.g_runs(F, rng, 40 if q else 2000)
+        inputs += gen.g_carry(F, rng, tier)[:: 3 if q else 1]
+        inputs += gen.g_exact_products(F, rng, tier)[:: 4 if q else 1]
+        inputs += gen.g_tie_digit_counts(F, rng, tier)
     inputs = gen.normalise(gen.dedup(inputs))
     parsecheck.parse_property_check(
         "C05", tier, inputs, cfgs, {"AGREE", "VALUE"},
